@@ -161,7 +161,8 @@ def classify_known(prop, f, known):
             return k
         if m == "panic-on-rounded-degenerate" and f.kind == "O" and f.detail.startswith("panic"):
             kv = parse_kv(f.detail)
-            if kv.get("exactmodel") == "ok" and kv.get("degenerate") == "1":
+            sites = (" index", "Sweep_line_misses_event_to_be_removed", "Invalid_lower_contour_id")
+            if kv.get("exactmodel") == "ok" and kv.get("degenerate") == "1" and any(x in f.detail for x in sites):
                 return k
     return None
 
@@ -278,9 +279,9 @@ def evaluate(prop, results, hangs, st, bound_check=False):
                 e = edges_in_req(req)
                 bound = 4 * e * e + 2 * e + 16
                 if impl.startswith("BUDGET"):
-                    findings.append(Finding("O", r, "runaway: event budget exceeded %s edges=%d" % (impl.split(" ", 1)[1] if " " in impl else "", e), run=k))
+                    findings.append(Finding("O", r, "runaway: event budget exceeded %s edges=%d %s" % (impl.split(" ", 1)[1] if " " in impl else "", e, r.klass.get(k, "")), run=k))
                 elif impl.startswith("PANIC"):
-                    findings.append(Finding("O", r, "panic: %s" % impl, run=k))
+                    findings.append(Finding("O", r, "panic: %s %s" % (impl, r.klass.get(k, "")), run=k))
                 elif impl.startswith("OK"):
                     m = re.search(r"ev=(\d+) bumps=(\d+)", impl)
                     if m and int(m.group(1)) > bound:
@@ -402,7 +403,7 @@ def build_cases(prop, tier, rng):
         out.append(("c12", plans.plan_core("C12", rng, corpus_pairs(80) + gen_pairs(rng, fams_all, n)), False))
     elif prop in ("C13", "C14"):
         n = 200 if q else 5000
-        pairs = corpus_pairs(150) + structural_pairs() + gen_pairs(rng, fams_all, n)
+        pairs = corpus_pairs(60) + structural_pairs() + gen_pairs(rng, fams_all, n)
         out.append(("sweep", extra.sweep_cases(prop, rng, pairs), False))
         if prop == "C14":
             out.append(("cf-table", extra.compute_fields_table(), False))
